@@ -175,6 +175,11 @@ func cmdCheck(args []string) {
 		r := verifyFunction(fn)
 		results = append(results, r)
 	}
+	if pset == nil || pset["C20"] {
+		if gs := verifyGlobalWrites(); len(gs.Obls) > 0 {
+			results = append(results, gs)
+		}
+	}
 	lemmaRes := verifyLemmas()
 	if lemmaRes != nil {
 		results = append(results, lemmaRes)
